@@ -19,7 +19,7 @@ PRIMES = [46337, 46327]
 
 
 def mv_consts(n, outl, move, seed, skip=False, deg=False, whole=True, prime=46337):
-    return {"N": n, "OutlierOn": tlc.tla_bool(outl), "Move": tlc.tla_str(move), "DumpRows": "FALSE", "SkipLoneOutlier": tlc.tla_bool(skip),
+    return {"N": n, "OutlierOn": tlc.tla_bool(outl), "Move": tlc.tla_str(move), "DumpRows": "FALSE", "RowsOnly": "FALSE", "SkipLoneOutlier": tlc.tla_bool(skip),
             "RegraftDegreeFactor": tlc.tla_bool(deg), "AllOutlierWhole": tlc.tla_bool(whole), "Seed": seed, "P": prime}
 
 
@@ -133,6 +133,93 @@ def sigfn_for(which):
     return f
 
 
+SINGLE_SITE_STARTS = [   # deep forests on 4-5 data points (chains of three clones, the upper clones holding several data points)
+    {"f": [[0, 1, 2, 3], [2, 3], [3]], "o": []},
+    {"f": [[0, 1, 2, 3], [1, 2, 3], [3]], "o": []},
+    {"f": [[0, 1, 2, 3, 4], [2, 3], [3], [4]], "o": []},
+    {"f": [[0, 1, 2, 3, 4], [1, 2, 3, 4], [3, 4], [4]], "o": []},
+    {"f": [[0, 1, 2, 3], [2, 3], [3]], "o": [4]},
+    {"f": [[0, 1, 2], [1, 2], [3, 4], [4]], "o": []},
+]
+
+
+def single_site_part(ck, seed):
+    """One data-point reassignment beyond the sizes of the exact sweep kernels: for deep start forests on 4-5 points TLC
+    (MoveRel.tla) gives the candidate set C of a reassignment of d - the same set from each of its members; the real
+    DataPointSampler._sample_tree is run from EVERY member of C with all multinomial outcomes enumerated and the block
+    C must be invariant: sum_c pi(c) K(c, t) = pi(t) on C, with pi the joint density of freshly built trees."""
+    import math
+    from ..enumrng import EnumRNG, enumerate_paths
+    from phyclone.tree import FSCRPDistribution, TreeJointDistribution
+
+    starts = [absstate.canon(x) for x in SINGLE_SITE_STARTS]
+    lines = []
+    for k, st in enumerate(starts):
+        j = absstate.to_json(st)
+        lines.append("[id |-> %d, st |-> [f |-> {%s}, o |-> {%s}]]" % (k, ", ".join("{%s}" % ", ".join(map(str, c)) for c in j["f"]), ", ".join(map(str, j["o"]))))
+    mc = ("---- MODULE MC_SingleSite ----\nEXTENDS MoveRel, Json\nStarts == {%s}\n"
+          "ASSUME \\A r \\in Starts : \\A d \\in DataOf(r.st) : PrintT(ToJson([id |-> r.id, d |-> d, cands |-> DPCands(r.st, d)]))\n"
+          "VARIABLE x\nInit == x = 0\nNext == UNCHANGED x\n====\n") % ", ".join(lines)
+    r = tlc.run_tlc("c04_single_site", "MC_SingleSite", tlc.cfg_text(constants={"OutlierOn": "TRUE", "SkipLoneOutlier": "FALSE"}), mc_text=mc, workers=1, timeout=900)
+    tlc.require_ok(r, "MoveRel candidate sets")
+    ck.add_tlc("MoveRel.tla candidate sets of single reassignments from %d deep forests on 4-5 points" % len(starts), r)
+    n = 5
+    data = absstate.make_data(n, dims=2, grid=5, seed=seed + 3, kind="int", outlier_prob=0.2, sizes=[(1, 3, 2)[i % 3] for i in range(n)])
+    dist = TreeJointDistribution(FSCRPDistribution(0.8))
+    blocks = 0
+    for rec in r.json_prints:
+        cands = [absstate.canon(c) for c in rec["cands"]]
+        d = rec["d"]
+        if len(cands) < 2:
+            continue
+        cset = set(cands)
+        logpi = {}
+        for c in cands:
+            sub = [dp for dp in data if dp.idx in absstate.data_ids(c)]
+            logpi[c] = float(dist.log_p_one(absstate.build(c, sub)))
+        m = max(logpi.values())
+        tot = sum(math.exp(v - m) for v in logpi.values())
+        pi = {c: math.exp(v - m) / tot for c, v in logpi.items()}
+        flow = {c: 0.0 for c in cands}
+        bad = None
+        for c in cands:
+            rng = EnumRNG()
+            from phyclone.mcmc.gibbs_mh import DataPointSampler
+            sampler = DataPointSampler(dist, rng, outliers=True)
+            sub = [dp for dp in data if dp.idx in absstate.data_ids(c)]
+
+            def go():
+                t = absstate.build(c, sub)
+                return sampler._sample_tree(d, t, t.labels[d])
+
+            for out, p, _ in enumerate_paths(go, rng):
+                try:
+                    k2 = absstate.project(out, full=True)[0]
+                except absstate.Inconsistent as ex:
+                    bad = "reassigning data point %d in %s returned an inconsistent tree: %s" % (d, absstate.key_str(c), ex)
+                    break
+                if k2 not in cset:
+                    bad = "reassigning data point %d in %s returned %s, which is not a candidate of MoveRel.tla" % (d, absstate.key_str(c), absstate.key_str(k2))
+                    break
+                flow[k2] += pi[c] * p
+            if bad:
+                break
+        blocks += 1
+        ck.evaluations += len(cands)
+        ck.nontrivial("single_site|%d|%d" % (rec["id"], d))
+        rep = {"start": SINGLE_SITE_STARTS[rec["id"]], "d": d, "candidates": [absstate.to_json(c) for c in cands]}
+        if bad:
+            ck.violation("C04|single_site|support", bad, rep)
+            continue
+        res = max(abs(flow[c] - pi[c]) for c in cands)
+        if res > 1e-10:
+            worst = max(cands, key=lambda c: abs(flow[c] - pi[c]))
+            ck.violation("C04|single_site|nonstationary", "reassigning data point %d among the %d candidate trees of %s does not preserve the posterior on that block: max |pi K - pi| = %.3g (at %s: %.6g vs %.6g)" % (
+                d, len(cands), absstate.key_str(starts[rec["id"]]), res, absstate.key_str(worst), flow[worst], pi[worst]), rep)
+    ck.traces_validated += blocks
+    ck.extra["single_site_blocks"] = blocks
+
+
 def trace_moves_part(ck, seed, thorough):
     """The move RELATIONS of Moves.tla (MoveRel.tla) bound beyond the sizes the exact kernels reach: real chains on 6-8
     (clustered) data points with flat likelihoods and a large concentration value (many clones, trees change often);
@@ -181,6 +268,7 @@ def run(corrupt=None):
         cfgs.append(dict(base, n=3, wiring="lib", outl=False, dist="real", alpha=2.5))
         c01.run_configs(ck, cfgs, table, which=which, prop="C04", corrupt=corrupt, sigfn=sigfn_for(which))
     mechanism_rows(ck, seed, table)
+    single_site_part(ck, seed)
     trace_moves_part(ck, seed, thorough)
     # sweep composition on one tree object (data-point scan, prune-regraft, relabel, prune-regraft), real density
     cfgs = [dict(base, n=3, wiring="run", outl=False, dist="real", alpha=0.6)]
